@@ -7,8 +7,8 @@ EXTENDS Quantity, Json, IOUtils, Sequences, SequencesExt
 In == JsonDeserialize(IOEnv.VIN)
 Traces == In.traces
 
-VARIABLES tid, i, skip, bad, nev
-tvars == <<acc, res, tid, i, skip, bad, nev>>
+VARIABLES tid, pos, skip, bad, nev
+tvars == <<acc, res, tid, pos, skip, bad, nev>>
 
 \* observation matches expectation; the spec leaves open: the error class
 \* "any", and magnitudes it does not determine (Unknown)
@@ -21,7 +21,7 @@ ObsOK(o, x) ==
   ELSE IF o.t = "err" THEN FALSE ELSE ValMatch(o, x)
 
 TInit == acc = Num(RZero) /\ res = [t |-> "none"]
-         /\ tid = 1 /\ i = 1 /\ skip = FALSE /\ bad = {} /\ nev = 0
+         /\ tid = 1 /\ pos = 1 /\ skip = FALSE /\ bad = {} /\ nev = 0
 
 Act(e) ==
   \/ e.op = "init" /\ acc' = e.b /\ res' = [t |-> "none"]
@@ -35,16 +35,16 @@ Expected == IF res'.t = "none" THEN acc' ELSE res'
 
 TStep ==
   /\ tid <= Len(Traces)
-  /\ IF skip \/ i > Len(Traces[tid]) THEN
-        /\ tid' = tid + 1 /\ i' = 1 /\ skip' = FALSE
+  /\ IF skip \/ pos > Len(Traces[tid]) THEN
+        /\ tid' = tid + 1 /\ pos' = 1 /\ skip' = FALSE
         /\ acc' = Num(RZero) /\ res' = [t |-> "none"] /\ UNCHANGED <<bad, nev>>
-     ELSE LET e == Traces[tid][i] IN
+     ELSE LET e == Traces[tid][pos] IN
         /\ Act(e)
         /\ nev' = nev + 1
         /\ IF ObsOK(e.obs, Expected)
-           THEN i' = i + 1 /\ UNCHANGED <<tid, skip, bad>>
-           ELSE /\ bad' = bad \cup {[tid |-> tid, i |-> i, exp |-> Expected]}
-                /\ skip' = TRUE /\ UNCHANGED <<tid, i>>
+           THEN pos' = pos + 1 /\ UNCHANGED <<tid, skip, bad>>
+           ELSE /\ bad' = bad \cup {[tid |-> tid, i |-> pos, exp |-> Expected]}
+                /\ skip' = TRUE /\ UNCHANGED <<tid, pos>>
 
 TSpec == TInit /\ [][TStep]_tvars
 Done == tid > Len(Traces)
